@@ -29,6 +29,46 @@ theorem C11_pipeline_never_stuck (n : Nat) (inmem : Bool) (d0 : Bytes) (ws : Nat
     g'.cur = n ∨ ∃ a g'', gstep n g' a = some g'' :=
   pipeline_never_stuck n inmem d0 ws sched g' hr
 
+/-- **The property as stated: the bytes do not depend on the schedule or on the staging mode.** Two complete runs of the
+    same producer histories — under ANY two interleavings, and with in-memory staging in one and temp-file staging in the
+    other (`inmem₁`, `inmem₂` independent) — leave the same bytes in the file. -/
+theorem C11_two_complete_runs_agree (n : Nat) (inmem₁ inmem₂ : Bool) (d0 : Bytes) (ws : Nat → List Bytes)
+    (sched₁ sched₂ : List GAct) (g₁ g₂ : G)
+    (h₁ : grun n (ginit n inmem₁ d0 ws) sched₁ = some g₁) (hc₁ : g₁.cur = n)
+    (h₂ : grun n (ginit n inmem₂ d0 ws) sched₂ = some g₂) (hc₂ : g₂.cur = n) :
+    g₁.final = g₂.final := by
+  rw [pipeline_from_start n inmem₁ d0 ws sched₁ g₁ h₁ hc₁, pipeline_from_start n inmem₂ d0 ws sched₂ g₂ h₂ hc₂]
+
+/-- **Every maximal run of the whole pipeline completes with the sequential bytes**: a run in which no producer step,
+    consumer step or hand-over is enabled any more has been through all chromosomes, and the file holds the bytes of the
+    sequential schedule — the pipeline cannot come to rest anywhere else, whatever the interleaving. -/
+theorem C11_every_maximal_run_completes (n : Nat) (inmem : Bool) (d0 : Bytes) (ws : Nat → List Bytes) (sched : List GAct) (g' : G)
+    (hr : grun n (ginit n inmem d0 ws) sched = some g') (hmax : ∀ a, gstep n g' a = none) :
+    g'.cur = n ∧ g'.final = some (pre d0 ws n) := by
+  rcases pipeline_never_stuck n inmem d0 ws sched g' hr with hc | ⟨a, g'', hs⟩
+  · exact ⟨hc, pipeline_from_start n inmem d0 ws sched g' hr hc⟩
+  · rw [hmax a] at hs; cases hs
+
+/-- The common value is a function of the producer histories alone: the initial bytes followed by each chromosome's
+    buffers, flattened, in chromosome order (`pre` unfolded for the reader). -/
+theorem C11_sequential_bytes_unfold (d0 : Bytes) (ws : Nat → List Bytes) (k : Nat) :
+    pre d0 ws 0 = d0 ∧ pre d0 ws (k + 1) = pre d0 ws k ++ (ws k).flatten := by
+  constructor <;> rfl
+
+/-- Non-vacuity: two chromosomes, two different complete schedules (producer of chromosome 1 running before / after the
+    consumer reaches it), one staging in memory and one in a temp file: both complete, and hold `[9,1,2,3]`. -/
+example :
+    let ws : Nat → List Bytes := fun i => if i = 0 then [[1], [2]] else [[3]]
+    let sA : List GAct := [.prod 1 .pUpdate, .prod 1 .pWrite, .prod 1 .pDrop,
+                           .cons .cSwitch, .prod 0 .pUpdate, .prod 0 .pWrite, .prod 0 .pUpdate, .prod 0 .pWrite, .prod 0 .pDrop,
+                           .cons .cTake, .cons .cSwap, .next, .cons .cSwitch, .cons .cTake, .cons .cSwap, .next]
+    let sB : List GAct := [.prod 0 .pUpdate, .cons .cSwitch, .prod 0 .pWrite, .prod 0 .pUpdate, .prod 0 .pWrite, .prod 0 .pDrop,
+                           .cons .cTake, .cons .cSwap, .next, .cons .cSwitch,
+                           .prod 1 .pUpdate, .prod 1 .pWrite, .prod 1 .pDrop, .cons .cTake, .cons .cSwap, .next]
+    ((grun 2 (ginit 2 true [9] ws) sA).map (fun g => (g.cur, g.final)) = some (2, some [9, 1, 2, 3])) ∧
+    ((grun 2 (ginit 2 false [9] ws) sB).map (fun g => (g.cur, g.final)) = some (2, some [9, 1, 2, 3])) := by
+  decide
+
 end PL
 
 namespace TB
